@@ -6,6 +6,9 @@ From RPFT Require Import Base.Sexp Base.PyStr Base.PyStrFacts Base.Result Gen.Ta
      Comp.RefineStore Comp.RefineEdge Comp.RefineGroup Comp.RefineStep.
 Import ListNotations.
 
+Section WithNames.
+Context {GN : GenNames}.
+
 (* what run_rows does with one row *)
 Definition rstep (sr : st) (heads : list str) (r : row) : option (st * list str) :=
   match r_type r with
@@ -138,3 +141,4 @@ Proof.
     + exists phi2. split; [exact S2|]. split; [exact I2|]. split; [exact E2|eapply phi_le_trans; eauto].
 Qed.
 End Run.
+End WithNames.
